@@ -12,7 +12,7 @@ from glue.core.util import split_component_view
 from glue.core.registry import Registry
 from glue.core.exceptions import IncompatibleAttribute
 from glue.core.message import SubsetDeleteMessage, SubsetUpdateMessage
-from glue.core.decorators import memoize
+from glue.core.decorators import memoize, clear_all_caches
 from glue.core.visual import VisualAttributes
 from glue.config import settings
 from glue.utils import (categorical_ndarray, combine_slices, floodfill, iterate_chunks,
@@ -430,6 +430,14 @@ class SubsetState(object):
 
     def __init__(self):
         pass
+
+    def __setattr__(self, name, value):
+        # Masks are cached per subset state instance (see memoize), so if the
+        # definition of a subset state is modified after it has been created
+        # we need to invalidate the cached masks.
+        if name in self.__dict__:
+            clear_all_caches()
+        object.__setattr__(self, name, value)
 
     @property
     def attributes(self):
@@ -1127,6 +1135,7 @@ class CompositeSubsetState(SubsetState):
                 mt_args = args
             self.state2.move_to(*mt_args)
         self.state1.move_to(*args)
+        clear_all_caches()
 
     @property
     def attributes(self):
